@@ -39,6 +39,12 @@ func init() {
 	operations["seq"] = opSeq
 	operations["seq.ops"] = opSeqOps
 	generators["C05"] = genList
+	generators["C15"] = genFuzz
+	generators["C06"] = genDiskScan
+	generators["C07"] = genDiskFind
+	operations["disk.scan"] = opDiskScan
+	operations["disk.find"] = opDiskFind
+	operations["fuzz"] = opFuzz
 	operations["list"] = opList
 }
 
